@@ -10,6 +10,7 @@
  *             pixels per source pixel | 3 PAD repeat (sx may leave the image) | 4 scale 1 + 1/65536
  *             | 5 1x1 image with NORMAL repeat (a solid source) | 6 PAD repeat and scale 1 + 1/65536
  *             | 7 a solid-fill image (pixman_image_create_solid_fill): SRC holds the 16-bit a r g b (little endian)
+ *       pres 8 / mpres 3: a general affine matrix (one unit of shear, NEAREST): the fetchers for arbitrary affine transforms
  *       mpres: 0 plain | 1 1x1 mask image with NORMAL repeat (a solid mask) | 2 a solid-fill mask (MSK: 16-bit a r g b)
  *       dither: pixman_dither_t of the destination (0 none, 1 FAST, 2 GOOD, 3 BEST, 4 bayer, 5 blue noise), dox doy its offsets
  *       drep: repeat mode set on the DESTINATION image (0 none, 1 normal, 2 pad, 3 reflect): legal, and must not matter
@@ -116,6 +117,15 @@ main (int argc, char **argv)
 		pixman_image_set_component_alpha (m, ca);
 		if (mpres == 1)
 		    pixman_image_set_repeat (m, PIXMAN_REPEAT_NORMAL);
+		if (mpres == 3)
+		{
+		    /* a general affine matrix (one unit of shear: the same pixels are sampled on a one-row image) */
+		    pixman_transform_t t;
+		    pixman_transform_init_identity (&t);
+		    t.matrix[0][1] = 1;
+		    pixman_image_set_transform (m, &t);
+		    pixman_image_set_filter (m, PIXMAN_FILTER_NEAREST, NULL, 0);
+		}
 	    }
 	    if (!s || !d) { fprintf (stderr, "drv_composite: cannot create images\n"); return 3; }
 	    if (drep)
@@ -151,7 +161,14 @@ main (int argc, char **argv)
 		if (pres == 6)
 		    pixman_image_set_repeat (s, PIXMAN_REPEAT_PAD);
 	    }
-	    if (pres == 1 || pres == 2 || pres == 4 || pres == 6)
+	    else if (pres == 8)
+	    {
+		pixman_transform_t t;
+		pixman_transform_init_identity (&t);
+		t.matrix[0][1] = 1;
+		pixman_image_set_transform (s, &t);
+	    }
+	    if (pres == 1 || pres == 2 || pres == 4 || pres == 6 || pres == 8)
 		pixman_image_set_filter (s, PIXMAN_FILTER_NEAREST, NULL, 0);
 
 	    pixman_image_composite32 ((pixman_op_t)op, s, m, d, rx, 0, mx, 0, dx, 0, w, 1);
